@@ -390,13 +390,15 @@ func (e *env) flap(cf conf, cycles int, rng *rand.Rand) {
 }
 
 // an emit while the CONNECT is unanswered (slow middleware on the server)
-func (e *env) pendingEmit(cf conf) {
+func (e *env) pendingEmit(cf conf, preload bool) {
 	cf.SlowMw = 120 * time.Millisecond
-	w, id := e.begin(cf, "pending-emit")
+	w, id := e.begin(cf, fmt.Sprint("pending-emit preload=", preload))
 	if w == nil {
 		return
 	}
-	w.emit('p')
+	if preload {
+		w.emit('p') // something is parked already / nothing is
+	}
 	w.connect()
 	if !rig.WaitUntil(3*time.Second, func() bool { st, _ := sio.VerifClientSocketState(w.s); return st == 1 }) {
 		e.res.Inconclusive("c15", "never pending", id)
@@ -405,7 +407,7 @@ func (e *env) pendingEmit(cf conf) {
 	if d := e.end(w, "connected", 5*time.Second); d != 0 {
 		e.res.Violation("c15-pending-emit-kills-connection", fmt.Sprintf("%s: an emit while the CONNECT was pending: the socket was disconnected %d time(s)", cf.Name, d), id, cf)
 	}
-	e.res.Case(fmt.Sprint("pending", cf), true)
+	e.res.Case(fmt.Sprint("pending", cf, preload), true)
 }
 
 // the connection dies between Dial returning and the Manager recording it (schedule from the model's counterexample)
@@ -578,7 +580,8 @@ func TestC15(t *testing.T) {
 		e.flap(base("flap", tr, 0, 0.5), vres.Pick(3, 6), rng)
 	}
 	for _, tr := range [][]string{ws, po} {
-		e.pendingEmit(base("pending-emit", tr, 0, 0))
+		e.pendingEmit(base("pending-emit", tr, 0, 0), true)
+		e.pendingEmit(base("pending-emit-empty", tr, 0, 0), false)
 		if tr[0] == "websocket" {
 			// (cutting TCP connections does not end a polling session: the schedule needs a transport that dies with its connection)
 			e.earlyClose(base("early-close", tr, 0, 0))
